@@ -171,6 +171,20 @@ def part_c(tier, out):
             if rb.returncode != 0:
                 res.setdefault("programs_failing_without_threads", []).append(prog)
                 continue
+            # Does it also fail under cooperative interleavings on ONE OS thread (shuttle), and
+            # there only when a clone shares structure with its source? Then it is an order
+            # dependence between aliasing handles (value operations, C15), not thread-safety.
+            # A mismatch that shuttle cannot reproduce needs true preemption: thread-safety.
+            if build_thsim() is None:
+                outf = SIM + "/target-ts/thsim-small.json"
+                rs = sh(f"./target-ts/release/thsim run --small --first-program {prog} --programs 1 --schedules 400 --seed {SEED} --threads 1 --replay-dir {ROOT}/replays --out {outf}", cwd=SIM, timeout=600)
+                try:
+                    sm = json.load(open(outf))
+                except Exception:
+                    sm = {}
+                if rs.returncode == 0 and sm.get("programs_failing_only_with_clone_sharing", 0) > 0:
+                    res.setdefault("programs_failing_only_with_clone_sharing", []).append(prog)
+                    continue
         if findings or ub:
             os.makedirs(ROOT + "/replays/C20", exist_ok=True)
             path = f"{ROOT}/replays/C20/miri-{SEED}.json"
